@@ -359,3 +359,12 @@ Definition inner_cov (X : list (list Q)) (chunks : list Z) (nchunks : nat) : lis
 Definition c09_rca (X : list (list Q)) (chunks : list Z) (nchunks : nat) (L : list (list Q)) : bool :=
   let C := inner_cov X chunks nchunks in
   mclose tol_1e6 (@mmulg QOps (@mmulg QOps L C) (@transp QOps L)) (identQ (length L)).
+
+(* ---------------- C10 ---------------------------------------------------------------------- *)
+From ML Require Import FExp Objectives.
+Definition c10_nca (L X : list (list fl)) (y : list Z) (loss_impl : fl) : bool :=
+  fclose f1em9 f1em12 (@nca_obj FOps fexp L X y) loss_impl.
+Definition c10_mlkr (L X : list (list fl)) (y : list fl) (loss_impl : fl) : bool :=
+  fclose f1em9 f1em12 (@mlkr_obj FOps fexp L X y) loss_impl.
+Definition c10_lmnn (reg : fl) (L X : list (list fl)) (y : list Z) (targets : list (list nat)) (obj_impl : fl) : bool :=
+  fclose f1em9 f1em9 (@lmnn_obj FOps reg L X y targets) obj_impl.
